@@ -474,6 +474,9 @@ func (x *Exec) havocFresh(n *Node, st *State, name string, allocPre string) {
 	}
 	c := x.vc.freshConst(shortVar(name)+"_f", sort)
 	n.assume(fmt.Sprintf("(forall ((r Int)) (! (=> (< r %s) (= (select %s r) (select %s r))) :pattern ((select %s r))))", allocPre, c, old, c))
+	if strings.HasPrefix(name, "HA.") && x.elemLinksOn() && simpleConst(old) {
+		n.assume(x.sliceFrame(name, old, c, app("<", "(s.arr s)", allocPre)))
+	}
 	x.set(st, name, c)
 	x.heapRefsAllocated(name, c, x.allocNow(st))
 }
@@ -519,6 +522,7 @@ func (x *Exec) havocVar(st *State, name string) {
 // Frames
 
 type Frame struct {
+	loopFieldMods map[*ssa.BasicBlock]map[string][]int // per loop: struct variables of which only these fields are assigned
 	fn      *ssa.Function
 	id      int
 	vals    map[ssa.Value]Term
